@@ -703,6 +703,9 @@ func Templates(fs string, core, removeAll bool) []Tmpl {
 		one(fsx.Call{Op: "Link", A: "/d/e/z", B: "/f/l"}),
 		one(fsx.Call{Op: "Rename", A: "/f/g", B: "/d/e/y"}),
 		one(fsx.Call{Op: "Link", A: "/d/e/z", B: "/d/y"}),
+		// from a directory into its own sub directory and back: the two directories locked by the move
+		// are parent and child, the order a listing or a removal of the parent takes them in
+		one(fsx.Call{Op: "Rename", A: "/d/x", B: "/d/e/x"}),
 		// a name removed and created again by one thread: a call of the other thread
 		// that looked the name up before and re-checks it afterwards must notice
 		// that the entry is another node now, not only that there is an entry
